@@ -1,7 +1,7 @@
 (* C01 — serialise -> parse round trip (Stage A of DESIGN 3.3: token level; the tokenizer enters as the instance-checked
    lexer contract "handler calls on render l = chunk l").  Statements only; proofs in Proofs/RoundTripProofs.v. *)
 From AHP Require Import Model.Base Model.Str Model.Attr Model.Dom Model.Serial Model.Parser Model.RoundTrip Model.Search Model.Index Gen.Tables
-     Proofs.DomProofs Proofs.ParserProofs Proofs.RoundTripProofs Proofs.CloneProofs Proofs.IndexedParserProofs Proofs.FixPointProofs Proofs.ChunkedProofs.
+     Proofs.DomProofs Proofs.ParserProofs Proofs.RoundTripProofs Proofs.CloneProofs Proofs.IndexedParserProofs Proofs.FixPointProofs Proofs.ChunkedProofs Proofs.ChunkSpecProofs.
 
 (* serialisation is exactly the rendering of the tree's token list, for every tree *)
 Theorem C01_render_factor : forall t, outer_html t = render (toks_of t).
@@ -50,6 +50,15 @@ Proof. exact chunk_text_textlike. Qed.
 (* every run without "<" and "&" is complete (it is a single data piece) *)
 Theorem C01_plain_runs_complete : forall p, plain p = true -> complete p.
 Proof. exact plain_complete. Qed.
+(* ... and so is every run that does not end in a bare "&" and in which every comment opener "<!--" is followed by a "-->"
+   (in particular every run without a comment opener): references, lone "<" and "&", closed comments.  The two exclusions are
+   exactly the runs of which the tokenizer keeps a piece buffered. *)
+Theorem C01_closed_runs_complete : forall p, ends_amp p = false -> closed_comments p -> complete p.
+Proof. exact closed_runs_complete. Qed.
+Theorem C01_runs_without_opener_complete : forall p, ends_amp p = false -> no_opener p -> complete p.
+Proof. exact no_opener_complete. Qed.
+Example C01_incomplete_runs : ~ complete "a&" /\ ~ complete "x<!-- y".
+Proof. split; intros H; vm_compute in H; discriminate. Qed.
 (* non-vacuity: a parsed tree with references, a comment, lone "<" and "&", a void element, script content containing "<" and a
    class value that is normalised meets all three hypotheses; its real stream is listed *)
 Definition C01_ex_ts := [TStart "div" [("id", Some "a"); ("class", Some "k  j")] false; TData "x "; TEntity "amp"; TData " y < 3 & z"; TComment " c ";
